@@ -40,6 +40,8 @@ SCENARIOS = [
     ("open_run,kickoff,close_run,custom", "", {}),
     ("open_run,monitor,unmonitor,close_run", "abort", {}),
     ("open_run,monitor,custom,checkpoint", "pause", {"max_requests": 1}),
+    ("stage,set_async,custom", "abort", {}),
+    ("stage,set_async,custom,checkpoint", "pause", {"max_requests": 2}),
     ("subscribe,custom", "", {"second_call": ("custom",)}),
     ("subscribe,stage,custom,checkpoint", "pause", {"second_call": ("custom",), "max_requests": 1}),
 ]
